@@ -99,9 +99,46 @@ type c07File struct {
 // consume the rows of the case in order; rows left over are written with
 // WriteRows before Close.
 type c07Step struct {
-	Op    string `json:"op"`              // rows flush buffer concurrent file multi merge multibuf copyrows readfrom
+	Op    string `json:"op"`              // rows flush buffer concurrent file multi merge sortmerge multibuf copyrows readfrom
 	N     int    `json:"n,omitempty"`     // rows of the case consumed by the step
 	Parts int    `json:"parts,omitempty"` // row groups of the source file / number of buffers
+	Mix   int    `json:"mix,omitempty"`   // sortmerge: key ranges of the source row groups 0 disjoint, 1 overlapping at their ends, 2 overlapping entirely
+}
+
+// sortKey is the column a sortmerge step sorts on: the first required column
+// whose order the harness reproduces (-1: none, the step is a plain merge).
+func (cs *c07File) sortKey() int {
+	for i, col := range cs.Cols {
+		if col.Rep == "required" && (col.Type == "i32" || col.Type == "i64" || col.Type == "ba") {
+			return i
+		}
+	}
+	return -1
+}
+
+// unordered reports whether the order of the rows in the file may differ from
+// that of the case (a sorted merge orders its rows by the key).
+func (cs *c07File) unordered() bool {
+	if cs.Path != "history" {
+		return false
+	}
+	for _, st := range cs.Steps {
+		if st.Op == "sortmerge" {
+			return true
+		}
+	}
+	return false
+}
+
+func (cs *c07File) keyLess(key, a, b int) bool {
+	x, y := unhex(cs.Rows[a][key][0]), unhex(cs.Rows[b][key][0])
+	switch cs.Cols[key].Type {
+	case "i32":
+		return int32(binary.LittleEndian.Uint32(x)) < int32(binary.LittleEndian.Uint32(y))
+	case "i64":
+		return int64(binary.LittleEndian.Uint64(x)) < int64(binary.LittleEndian.Uint64(y))
+	}
+	return bytes.Compare(x, y) < 0
 }
 
 // c07Open is one way of opening the file and of obtaining the filters.
@@ -636,18 +673,46 @@ func c07Write(cs *c07File) (out []byte, copied int64, err error) {
 
 // sourceFile writes rows lo..hi to a file of their own in `parts` row groups
 // (Flush between them) and opens it.
-func (cs *c07File) sourceFile(lo, hi, parts int) (*parquet.File, error) {
+//
+// key >= 0: every row group is sorted on that column; mix 0: the row groups
+// cover consecutive key ranges, 1: the rows next to each boundary go
+// alternately to either side (ranges overlap at their ends), 2: the rows are
+// dealt in their original order (ranges overlap entirely).
+func (cs *c07File) sourceFile(lo, hi, parts, key, mix int) (*parquet.File, error) {
 	var src bytes.Buffer
 	sw := parquet.NewWriter(&src, cs.options(cs.SrcBits, cs.Codec)...)
 	if parts < 1 {
 		parts = 1
 	}
+	idx := make([]int, hi-lo)
+	for i := range idx {
+		idx[i] = lo + i
+	}
+	if key >= 0 && mix != 2 {
+		sort.SliceStable(idx, func(a, b int) bool { return cs.keyLess(key, idx[a], idx[b]) })
+		if mix == 1 {
+			for k := 1; k < parts; k++ {
+				m := len(idx) * k / parts
+				for d := 1; d <= 3 && m-d >= 0 && m+d-1 < len(idx); d += 2 {
+					idx[m-d], idx[m+d-1] = idx[m+d-1], idx[m-d]
+				}
+			}
+		}
+	}
 	for k := 0; k < parts; k++ {
-		a, b := lo+(hi-lo)*k/parts, lo+(hi-lo)*(k+1)/parts
+		a, b := len(idx)*k/parts, len(idx)*(k+1)/parts
 		if a == b {
 			continue
 		}
-		if _, err := sw.WriteRows(c07MakeRows(cs, a, b)); err != nil {
+		part := append([]int(nil), idx[a:b]...)
+		if key >= 0 {
+			sort.SliceStable(part, func(a, b int) bool { return cs.keyLess(key, part[a], part[b]) })
+		}
+		var rows []parquet.Row
+		for _, r := range part {
+			rows = append(rows, c07MakeRows(cs, r, r+1)...)
+		}
+		if _, err := sw.WriteRows(rows); err != nil {
 			return nil, fmt.Errorf("source file: %w", err)
 		}
 		if err := sw.Flush(); err != nil {
@@ -802,8 +867,12 @@ func (cs *c07File) writeHistory() ([]byte, int64, error) {
 					return fail(err)
 				}
 			}
-		case "file", "multi", "merge", "copyrows", "readfrom":
-			sf, err := cs.sourceFile(lo, hi, parts)
+		case "file", "multi", "merge", "sortmerge", "copyrows", "readfrom":
+			key := -1
+			if st.Op == "sortmerge" {
+				key = cs.sortKey()
+			}
+			sf, err := cs.sourceFile(lo, hi, parts, key, st.Mix)
 			if err != nil {
 				return fail(err)
 			}
@@ -818,8 +887,12 @@ func (cs *c07File) writeHistory() ([]byte, int64, error) {
 				if _, err := w.WriteRowGroup(parquet.MultiRowGroup(sf.RowGroups()...)); err != nil {
 					return fail(err)
 				}
-			case "merge":
-				m, err := parquet.MergeRowGroups(sf.RowGroups())
+			case "merge", "sortmerge":
+				var mo []parquet.RowGroupOption
+				if key >= 0 {
+					mo = append(mo, parquet.SortingRowGroupConfig(parquet.SortingColumns(parquet.Ascending(c07Name(key)))))
+				}
+				m, err := parquet.MergeRowGroups(sf.RowGroups(), mo...)
 				if err != nil {
 					return fail(err)
 				}
@@ -886,6 +959,7 @@ type c07Rep struct {
 	c       *core.Ctx
 	collect bool // do not report, remember
 	record  bool // record coverage
+	noModel bool // property predicate only (no oracle calls)
 	failed  []string
 }
 
@@ -927,6 +1001,7 @@ func c07Verify(rep *c07Rep, cs *c07File, data []byte, copied int64, one int) boo
 		rep.violation(class, what, cs)
 	}
 	var chunks []*c07Chunk
+	unordered := cs.unordered()
 	f, _, err := c07Open{Prefetch: cs.Prefetch}.open(data)
 	if err != nil {
 		fail("file-open-error", "the written file cannot be opened: "+err.Error())
@@ -987,6 +1062,15 @@ func c07Verify(rep *c07Rep, cs *c07File, data []byte, copied int64, one int) boo
 					parquet.Release(pg)
 				}
 			}()
+			if unordered {
+				// the rows of the chunk are not those of the same positions of the
+				// case: the values of the chunk are those found in it (all the written
+				// values are found in some chunk, see the end of the function)
+				ch.Orig = nil
+				for _, pv := range ch.Pages {
+					ch.Orig = append(ch.Orig, pv...)
+				}
+			}
 			bf := cc.BloomFilter()
 			if bf == nil {
 				if len(ch.Orig) > 0 && rep.record {
@@ -1081,6 +1165,33 @@ func c07Verify(rep *c07Rep, cs *c07File, data []byte, copied int64, one int) boo
 	if !ok {
 		return false
 	}
+	if unordered {
+		// every value handed to the writer is stored in some chunk of its column
+		for ci, col := range cs.Cols {
+			if col.Bits == 0 || (one >= 0 && one != ci) {
+				continue
+			}
+			count := map[string]int{}
+			for r := range cs.Rows {
+				for _, v := range cs.Rows[r][ci] {
+					count[string(unhex(v))]++
+				}
+			}
+			for _, ch := range chunks {
+				if ch.Col == ci {
+					for _, b := range ch.Orig {
+						count[string(b)]--
+					}
+				}
+			}
+			for v, k := range count {
+				if k != 0 {
+					fail("value-count", fmt.Sprintf("path %s, column %d (%s): value %x written %+d times more than it is stored in the file", cs.Path, ci, col.Type, v, k))
+					return false
+				}
+			}
+		}
+	}
 	// the same file under every other way of opening it and of obtaining the filters
 	for _, o := range cs.Opens {
 		if !c07VerifyOpen(rep, cs, data, o, chunks) {
@@ -1096,6 +1207,7 @@ func c07Verify(rep *c07Rep, cs *c07File, data []byte, copied int64, one int) boo
 // exposed under the default options.
 func c07VerifyOpen(rep *c07Rep, cs *c07File, data []byte, o c07Open, chunks []*c07Chunk) (ok bool) {
 	c := rep.c
+	defer func(t time.Time) { c07OpenTime += time.Since(t) }(time.Now())
 	ok = true
 	fail := func(class, what string) {
 		ok = false
@@ -1256,9 +1368,12 @@ var c07VmFiles []string
 // c07Model compares the stored filter with the model's filter of the chunk's
 // values, the sizing with NumSplitBlocksOf where it is known, and Check with
 // the model's file_check for present and absent probes.
+var c07ModelTime, c07WriteTime, c07OpenTime time.Duration
+
 func c07Model(rep *c07Rep, cs *c07File, col c07Col, ch *c07Chunk, copied int64, check func([]byte) (bool, bool)) {
 	c := rep.c
-	if !c.HasOracle() {
+	defer func(t time.Time) { c07ModelTime += time.Since(t) }(time.Now())
+	if !c.HasOracle() || rep.noModel {
 		return
 	}
 	nblocks := len(ch.Filter) / 32
@@ -1278,7 +1393,13 @@ func c07Model(rep *c07Rep, cs *c07File, col c07Col, ch *c07Chunk, copied int64, 
 			distinct = append(distinct, b)
 		}
 	}
-	if len(distinct) > c.N(300, 1500) {
+	limit := c.N(300, 1500)
+	if cs.Path == "history" {
+		// (the histories add many chunks; the quick tier compares the smaller ones
+		// with the model, the property predicate is evaluated on all of them)
+		limit = c.N(100, 1500)
+	}
+	if len(distinct) > limit {
 		return
 	}
 	pages := splitPages(distinct, 200)
@@ -1378,10 +1499,31 @@ func (cs *c07File) key() string {
 }
 
 func c07RunFile(rep *c07Rep, cs *c07File, one int) bool {
+	t := time.Now()
 	data, copied, err := c07Write(cs)
+	c07WriteTime += time.Since(t)
 	if err != nil {
 		rep.violation("file-write-error", fmt.Sprintf("path %s: %v", cs.Path, err), cs)
 		return false
+	}
+	if cs.Path == "history" && rep.record {
+		pending := false
+		for _, st := range cs.Steps {
+			rep.c.Res.Buckets["history/step/"+st.Op]++
+			if pending {
+				rep.c.Res.Buckets["history/rows-pending-then/"+st.Op]++
+			}
+			pending = st.Op == "rows" || st.Op == "copyrows" || st.Op == "readfrom"
+		}
+		if pending {
+			rep.c.Res.Buckets["history/rows-pending-then/close"]++
+		}
+		if cs.Reset > 0 {
+			rep.c.Res.Buckets["history/after-reset"]++
+		}
+		if copied > 0 {
+			rep.c.Res.Buckets["history/chunks-copied-verbatim"] += int(copied)
+		}
 	}
 	if cs.Path == "copy" && copied > 0 && rep.record {
 		rep.c.Res.Buckets["file/chunks-copied-verbatim"] += int(copied)
@@ -1391,8 +1533,10 @@ func c07RunFile(rep *c07Rep, cs *c07File, one int) bool {
 
 // c07FileCase runs a file case once; a failing case is shrunk (keeping the
 // class of its first failure) and the shrunk case is reported.
-func c07FileCase(c *core.Ctx, cs *c07File) bool {
-	first := &c07Rep{c: c, collect: true, record: true}
+func c07FileCase(c *core.Ctx, cs *c07File) bool { return c07FileCaseOpt(c, cs, false) }
+
+func c07FileCaseOpt(c *core.Ctx, cs *c07File, noModel bool) bool {
+	first := &c07Rep{c: c, collect: true, record: true, noModel: noModel}
 	c07RunFile(first, cs, -1)
 	if len(first.failed) == 0 {
 		return true
@@ -1789,7 +1933,7 @@ func c07GenOpens(c *core.Ctx, big bool) []c07Open {
 
 // the operations that leave rows pending in the writer, and those that may follow
 var c07PendingOps = []string{"rows", "copyrows", "readfrom"}
-var c07NextOps = []string{"flush", "rows", "buffer", "concurrent", "file", "multi", "merge", "multibuf", "close"}
+var c07NextOps = []string{"flush", "rows", "buffer", "concurrent", "file", "multi", "merge", "sortmerge", "multibuf", "close"}
 
 // c07GenSteps draws a history over n rows. pair >= 0 fixes the first two
 // steps to the pair-th combination (pending operation, following operation).
@@ -1812,7 +1956,11 @@ func c07GenSteps(c *core.Ctx, n, pair int) []c07Step {
 				m = 1 + r.Intn(1+left/2)
 			}
 		}
-		steps = append(steps, c07Step{Op: op, N: m, Parts: 1 + r.Intn(3)})
+		st := c07Step{Op: op, N: m, Parts: 1 + r.Intn(3)}
+		if op == "sortmerge" {
+			st.Parts, st.Mix = 2+r.Intn(3), r.Intn(3)
+		}
+		steps = append(steps, st)
 		left -= m
 	}
 	if pair >= 0 {
@@ -1824,7 +1972,7 @@ func c07GenSteps(c *core.Ctx, n, pair int) []c07Step {
 		}
 		add(next, false)
 	}
-	ops := []string{"rows", "rows", "rows", "copyrows", "readfrom", "flush", "buffer", "concurrent", "file", "multi", "multi", "merge", "multibuf"}
+	ops := []string{"rows", "rows", "rows", "copyrows", "readfrom", "flush", "buffer", "concurrent", "file", "multi", "multi", "merge", "sortmerge", "multibuf"}
 	for k := r.Intn(4); k > 0 && left > 0; k-- {
 		add(ops[r.Intn(len(ops))], k == 1 && r.Intn(2) == 0)
 	}
@@ -2437,7 +2585,7 @@ func c07Corpus() []*c07File {
 }
 
 func runC07(c *core.Ctx) {
-	c.Res.Rule = "(a) xxhash.Sum64 on inputs of every length 0..100 (two contents each) and random lengths up to 4 KiB, Sum64Uint8 on all 256 bytes, Sum64Uint16/32/64/128 on edge and random values, MultiSum64UintK against the one-value functions; (b) SplitBlockFilter Insert/InsertBulk bytes, Check and CheckSplitBlock for present and absent probes, NumSplitBlocksOf, splitBlockEncoding.Encode* on generated page data of every physical type; (c) files with one column of every physical type in a random configuration (required/optional/repeated, plain/dictionary/delta/byte-stream-split encodings, 1..32 bits per value, flba sizes 1..33 and uuid), written through WriteRows, WriteRowGroup(buffer), WriteRowGroup(file row group) on the copy and re-encode paths, MergeRowGroups concatenation and CopyRows, with explicit flushes, MaxRowsPerRowGroup, page versions, codecs, deferred and gzip-compressed filters. A file case is non-trivial when the chunk has at least 2 distinct values; distinct by the JSON of the case."
+	c.Res.Rule = "(a) xxhash.Sum64 on inputs of every length 0..100 (two contents each) and random lengths up to 4 KiB, Sum64Uint8 on all 256 bytes, Sum64Uint16/32/64/128 on edge and random values, MultiSum64UintK against the one-value functions; (b) SplitBlockFilter Insert/InsertBulk bytes, Check and CheckSplitBlock for present and absent probes, NumSplitBlocksOf, splitBlockEncoding.Encode* on generated page data of every physical type; (c) files with one column of every physical type in a random configuration (required/optional/repeated, plain/dictionary/delta/byte-stream-split encodings, 1..32 bits per value, flba sizes 1..33 and uuid), written through WriteRows, WriteRowGroup(buffer), WriteRowGroup(file row group) on the copy and re-encode paths, MergeRowGroups concatenation and CopyRows, with explicit flushes, MaxRowsPerRowGroup, page versions, codecs, deferred and gzip-compressed filters; files produced by a HISTORY of calls on one writer over 3-5 columns: the first two steps enumerate every pair (operation leaving rows pending: WriteRows, CopyRows, ReadRowsFrom) x (Flush, WriteRows, WriteRowGroup of a buffer, of file row groups one by one, of MultiRowGroup(file row groups), of MergeRowGroups(file row groups) unsorted and sorted on a key column (source row groups with disjoint, partly or entirely overlapping key ranges; the row order of such a file is not that of the case, so the values of a chunk are those read back from it and every written value must be stored in some chunk), of MultiRowGroup(buffers), concurrent row groups begun together and committed in order, Close), followed by up to three drawn steps (the first quarter of these files is also compared with the model, the others evaluate the predicate only), with page buffers of 64 B..4 KiB so that pending rows have produced pages, MaxRowsPerRowGroup, copy or re-encode destination codec, and in a quarter of the cases a writer that first wrote rows to another output (left pending, flushed or closed) and was Reset; files of one or two columns with 1500+ rows over a domain four times larger (filters of 2..40 KiB). Every file is verified under the default options (pages read back, model filter, probes) and then re-opened under four option sets: filters loaded from the header at open, prefetched, on demand (SkipBloomFilters), and a fourth draw; each with ReadBufferSize in {default, 16, 64, 512, 1 MiB} (large files: {default, 512, 8 KiB, 1 MiB}), OptimisticRead, ReadModeAsync, SkipPageIndex, reader kind (bytes.Reader, EOF-with-last-byte ReaderAt, *os.File) and access path (ColumnChunk.BloomFilter, BloomFilterFrom(another reader), MultiRowGroup column filter) drawn independently; each must report every written value present and expose the same filter bytes. A file case is non-trivial when the chunk has at least 2 distinct values; distinct by the JSON of the case."
 	// corpus first
 	for i, cs := range c07Corpus() {
 		c07FileCase(c, cs)
@@ -2455,7 +2603,7 @@ func runC07(c *core.Ctx) {
 	defer func() {
 		c.Note("time: hashes %.1fs, filters %.1fs, encodes %.1fs, files %.1fs", t1.Sub(t0).Seconds(), t2.Sub(t1).Seconds(), t3.Sub(t2).Seconds(), time.Since(t3).Seconds())
 	}()
-	nFiles := c.N(70, 280)
+	nFiles := c.N(63, 280)
 	for i := 0; i < nFiles; i++ {
 		cs := c07GenFile(c, i)
 		c07FileCase(c, cs)
@@ -2465,20 +2613,23 @@ func runC07(c *core.Ctx) {
 	}
 	tHist := time.Now()
 	// histories: every (pending operation, following operation) pair in turn, then free draws
-	nHist := c.N(81, 324)
+	nHist := c.N(360, 1440)
+	nHistModel := c.N(90, 360) // the further ones evaluate the property predicate only
 	for i := 0; i < nHist; i++ {
 		cs := c07GenHistory(c, i)
-		c07FileCase(c, cs)
+		c07FileCaseOpt(c, cs, i >= nHistModel)
 		if i == 5 {
 			c.Sample(map[string]any{"kind": "file", "path": cs.Path, "cols": cs.Cols, "rows": len(cs.Rows), "steps": cs.Steps, "opens": cs.Opens})
 		}
 	}
 	t4 := time.Now()
 	// filters larger than the read buffer
-	nBig := c.N(6, 36)
+	nBig := c.N(30, 100)
 	for i := 0; i < nBig; i++ {
 		c07FileCase(c, c07GenBig(c, i))
 	}
+	c.Note("time within the file cases: writing %.1fs, model comparison %.1fs, re-opening under other options %.1fs", c07WriteTime.Seconds(), c07ModelTime.Seconds(), c07OpenTime.Seconds())
+	c.Note("the first %d history files are also compared with the model, the others evaluate the property predicate only", nHistModel)
 	c.Note("time: %d history files %.1fs, %d large-filter files %.1fs", nHist, t4.Sub(tHist).Seconds(), nBig, time.Since(t4).Seconds())
 	c.Note("chunks whose configured filter was not written (no non-null value or not produced on that path): %d; chunks copied verbatim: %d", c.Res.Buckets["file/no-filter-written"], c.Res.Buckets["file/chunks-copied-verbatim"])
 
